@@ -4,12 +4,14 @@ C14 — the bit reader delivers each bit once, in order, under any mix of operat
 Two layers.  `Reader.Rd` models the concrete reader (source, retained buffer, bits_read).  `Cur` is the
 specification machine (the remaining bits as a list).  The operation-script interpreters over both are in
 Model/Script.lean and are run against the real reader on every check.
-(PARTIAL: that `peek_bits`' per-byte accumulation loop returns the MSB-first value of the next n bits is covered by
-the correspondence runs — impl = concrete model = specification machine on nested scripts — not yet by a theorem.)
+(PARTIAL: the refinement is proved operation by operation for peek, skip, read, rollback and commit; the lifting to whole
+nested scripts, and to the start-code and VLC loops over the concrete reader, is carried by the correspondence runs —
+impl = concrete model = specification machine on nested scripts.)
 -/
 import H263V.Model.Reader
 import H263V.Lemmas.ReaderLemmas
 import H263V.Lemmas.ParseLemmas
+import H263V.Lemmas.PeekLoop
 namespace H263V.Thm.C14
 open H263V H263V.Lemmas.ReaderLemmas
 
@@ -39,6 +41,30 @@ well-formedness are unchanged. -/
 theorem commit_keeps_bits (r : Reader.Rd) (h : r.WF) :
     (Reader.commit r).bits = r.bits ∧ (Reader.commit r).WF ∧ (Reader.commit r).bitsRead % 8 = r.bitsRead % 8 :=
   commit_bits r h
+
+/-- `peek_bits::<T>(n)`, concrete per-byte accumulation loop included: for every reader state, width `W ≥ 1` and `n`, it
+returns exactly what the specification machine returns on the remaining bits — the MSB-first value of the next `n` bits,
+end-of-data when fewer remain, an internal error when `n > W` — and it consumes nothing and loses no byte. -/
+theorem peek_refines (W n : Nat) (hW : 1 ≤ W) (r : Reader.Rd) (h : r.WF) (hb : Lemmas.PeekLoop.ByteSrc r) :
+    (Reader.peekBits W n r).1 = H263V.peekBits W n (Lemmas.PeekLoop.absC r) ∧
+      Lemmas.PeekLoop.absC (Reader.peekBits W n r).2 = Lemmas.PeekLoop.absC r ∧
+      Lemmas.PeekLoop.Step r (Reader.peekBits W n r).2 :=
+  Lemmas.PeekLoop.peek_refines W n hW r h hb
+
+/-- `read_bits::<T>(n)` delivers the next `n` bits MSB first and consumes exactly those, each once and in order; when fewer
+remain it reports end-of-data and consumes nothing. -/
+theorem read_refines (W n : Nat) (hW : 1 ≤ W) (r : Reader.Rd) (h : r.WF) (hb : Lemmas.PeekLoop.ByteSrc r) :
+    (match H263V.readBits W n (Lemmas.PeekLoop.absC r) with
+      | .ok (v, c') => (Reader.readBits W n r).1 = .ok v ∧ Lemmas.PeekLoop.absC (Reader.readBits W n r).2 = c'
+      | .err e => (Reader.readBits W n r).1 = .err e ∧ Lemmas.PeekLoop.absC (Reader.readBits W n r).2 = Lemmas.PeekLoop.absC r
+      | _ => False) ∧ Lemmas.PeekLoop.Step r (Reader.readBits W n r).2 :=
+  Lemmas.PeekLoop.read_refines W n hW r h hb
+
+/-- the byte-level fact under the accumulation loop, kernel-checked for all 256 bytes x 8 offsets x 9 chunk widths -/
+theorem chunk_identity : ∀ b : Fin 256, ∀ off : Fin 8, ∀ t : Fin 9, off.val + t.val ≤ 8 → 1 ≤ t.val →
+    ((b.val * 2 ^ off.val) % 256) / 2 ^ (8 - t.val) =
+      ofBits ((Lemmas.PeekLoop.byteBits b.val).drop off.val |>.take t.val) :=
+  Lemmas.PeekLoop.chunk_identity
 
 /-- Specification machine: a start code is reported only where sixteen zero bits followed by a one actually begin, it is the
 nearest one, and (outside error-resynchronisation) at most `realignment + 1 ≤ 8` bits are skipped. -/
